@@ -277,7 +277,7 @@ def find_loops(body):
 #   //@ harness                          C text emitted after all functions
 #   //@ end                              (optional) closes a block
 
-MARK = re.compile(r'^\s*//@\s*(\w+)(?:\s+(\S+))?(?:\s+(\d+))?\s*$')
+MARK = re.compile(r'^\s*//@\s*(\w+)(?:\s+(\S+))?(?:\s+(\w+))?\s*$')
 
 
 def parse_spec(path):
@@ -291,7 +291,7 @@ def parse_spec(path):
                 if kind == 'end':
                     cur = None
                     continue
-                key = (kind, fn, int(k) if k else None)
+                key = (kind, fn, (int(k) if k.isdigit() else k) if k else None)
                 if key in blocks:
                     raise ExtractionBreak('duplicate spec block %r in %s' % (key, path))
                 blocks[key] = []
@@ -405,6 +405,18 @@ def extract_function(repo, fn, spec, common_rules, fires, info):
         else:
             ins.append((lp.body_start, 1, '{ ' + phd + ' '))
             ins.append((lp.body_end, -1, ptl + '}'))
+    # named injection points: unit.json "inject": [[regex, blockname]] -> spec block "//@ at <fn> <blockname>" is
+    # placed immediately before the unique match of regex in the verbatim body (assertions / ghost statements)
+    for rx_, bname in fn.get('inject', []):
+        ms = list(re.finditer(rx_, body))
+        if len(ms) != 1:
+            raise ExtractionBreak('%s: injection point %s (%r) matches %d times (need exactly 1)' % (name, bname, rx_, len(ms)))
+        txt = spec.get(('at', name, bname), '')
+        if not txt.strip():
+            raise ExtractionBreak('%s: no spec block "//@ at %s %s"' % (name, name, bname))
+        pk = '__GV_AT_%s__' % bname
+        ph[pk] = '\n' + txt
+        ins.append((ms[0].start(), -4, ' ' + pk + ' '))
     for pos, _, txt in sorted(ins, key=lambda x: (x[0], x[1]), reverse=True):
         body = body[:pos] + txt + body[pos:]
 
@@ -439,6 +451,12 @@ def extract_function(repo, fn, spec, common_rules, fires, info):
     out.append('#undef GV_RET\n#define GV_RET %s\n' % ret)
     for d in fn.get('defines', []):
         out.append('#define %s\n' % d)
+    # Safety checks (pointer, bounds, overflow, conversion) are generated for the CODE only: the contract clauses are
+    # specification text evaluated on harness-built objects; checking them too multiplies obligations tenfold.
+    if contract.strip() and not fn.get('check_spec_text'):
+        contract = ('#pragma CPROVER check push\n' + ''.join('#pragma CPROVER check disable "%s"\n' % c for c in
+                    ('pointer', 'bounds', 'signed-overflow', 'conversion', 'pointer-primitive', 'div-by-zero', 'pointer-overflow'))
+                    + contract + '#pragma CPROVER check pop\n')
     out.append(fn['csig'] + '\n' + contract + '{\n' + entry + body + '\n}\n')
     for d in fn.get('defines', []):
         out.append('#undef %s\n' % re.split(r'[\s(]', d)[0])
@@ -450,11 +468,13 @@ def build_unit(repo, unit_dir, unit, out_path):
     spec = parse_spec(os.path.join(unit_dir, unit.get('spec', 'spec.c')))
     fires = {}
     info = []
+    nochk = ('#pragma CPROVER check push\n' + ''.join('#pragma CPROVER check disable "%s"\n' % c for c in
+             ('pointer', 'bounds', 'signed-overflow', 'conversion', 'pointer-primitive', 'div-by-zero', 'pointer-overflow')))
     parts = ['/* GENERATED by /verif/gv/extract.py -- do not edit; regenerated from /repo on every run */\n',
-             '#include "gv.h"\n', spec.get(('prelude', None, None), '')]
+             nochk, '#include "gv.h"\n', spec.get(('prelude', None, None), ''), '\n#pragma CPROVER check pop\n']
     for fn in unit.get('functions', []):
         parts.append(extract_function(repo, fn, spec, unit.get('common_rules', []), fires, info))
-    parts.append(spec.get(('harness', None, None), ''))
+    parts += [nochk, spec.get(('harness', None, None), ''), '\n#pragma CPROVER check pop\n']
     text = ''.join(parts)
     with open(out_path, 'w') as f:
         f.write(text)
